@@ -335,11 +335,14 @@ def _explore_lists(part, u, lists, names, model_cache, selfcheck=False):
                 part.evaluations += 1
                 if got != exp:
                     case = {"part": "list", "route": route, "files": list(files), "name": nm}
-                    bad = run_list_case(case)
-                    if not bad:
-                        raise AssertionError("fast path and run_list_case disagree on %r" % (case,))
-                    for sig, e, o in bad:
-                        part.violation(sig, case, e, o)
+                    j = judge(files, nm, got)
+                    if j is None:
+                        raise AssertionError("table and judge() disagree on %r" % (case,))
+                    if part.viol_sigs[j[0]] < core.MAX_STORED_PER_SIG:
+                        # the cases that get stored are re-executed from scratch, exactly as replay does
+                        if [b[0] for b in run_list_case(case)] != [j[0]]:
+                            raise AssertionError("explorer and run_list_case disagree on %r" % (case,))
+                    part.violation(j[0], case, j[1], j[2])
                 if first:
                     if exp is not False:
                         part.nontrivial += 1
@@ -674,11 +677,13 @@ def _docs(part, u):
                     part.evaluations += 1
                     if got not in ok:
                         case = dict(base, name=nm)
-                        bad = run_doc_case(case)
-                        if not bad:
-                            raise AssertionError("fast path and run_doc_case disagree on %r" % (case,))
-                        for sig, e, o in bad:
-                            part.violation(sig, case, e, o)
+                        j = judge_find(file_lists, nm, got, paras)
+                        if j is None:
+                            raise AssertionError("table and judge_find() disagree on %r" % (case,))
+                        if part.viol_sigs[j[0]] < core.MAX_STORED_PER_SIG:
+                            if [b[0] for b in run_doc_case(case)] != [j[0]]:
+                                raise AssertionError("explorer and run_doc_case disagree on %r" % (case,))
+                        part.violation(j[0], case, j[1], j[2])
                     if route == "parse":
                         part.outcomes[cls] += 1
                         if mask == 0 and cls == "doc:several-matches":
